@@ -24,7 +24,7 @@ def checker(ctx) -> ptcheck.Checker:
                            want_samples=False, want_windows=True)
 
 
-GEN = {'measure_p': 0.75, 'drop_p': 0.45}
+GEN = {'measure_p': 0.75, 'drop_p': 0.45, 'zero_p': 0.12}
 
 
 def helper_case(rng: random.Random):
@@ -38,6 +38,52 @@ def helper_case(rng: random.Random):
     k = rng.choice(['2', '3', 'n1 + 1'])
     explicit = {'k': 'rep', 'body': inner, 'count': k, 'meas': [], 'cons': []}
     return {'spec': explicit, 'params': values, 'cm': {}, 'mm': None, 'single': [], 'helper': ['with_repetition', k]}
+
+
+def empty_case(rng: random.Random):
+    """composites that turn out empty (zero repetitions, empty ranges) and carry windows, followed by a
+    non-empty sibling: their windows must vanish, not move to the sibling"""
+    g = ptgen.Gen(rng, 2, measure_p=0.9)
+    env, values = g.params()
+    values['z'] = 0
+    env.ints['z'] = 0
+
+    def atom():
+        return ptgen.strip(g.atom(['A'], env, None, None, allow_multi=False))
+
+    def empty():
+        k = rng.randrange(3)
+        if k == 0:
+            return {'k': 'rep', 'body': atom(), 'count': rng.choice(['0', 'z']), 'meas': [['w', '0', '0.5']], 'cons': []}
+        if k == 1:
+            return {'k': 'for', 'body': {'k': 'const', 'dur': '1', 'amps': [['A', 'q']], 'meas': [['o', '0', '1']]},
+                    'idx': 'q', 'range': rng.choice([['0', 'z', '1'], ['3', '1', '1'], ['0', '2', '-1']]),
+                    'meas': [['n', '0.25', '0.5']], 'cons': []}
+        return {'k': 'const', 'dur': rng.choice(['0', 'z']), 'amps': [['A', '1']], 'meas': [['m', '0', '0']]}
+
+    def empty_composite():
+        k = rng.randrange(3)
+        if k == 0:
+            return {'k': 'seq', 'subs': [empty() for _ in range(rng.choice([1, 2]))], 'meas': [['x', '0', '1']], 'cons': []}
+        if k == 1:
+            return {'k': 'map', 'body': {'k': 'seq', 'subs': [empty()], 'meas': [['x', '0.5', '0.5']], 'cons': []},
+                    'pm': None, 'mm': [['x', 'y']], 'cm': None}
+        return empty()
+
+    parts = [empty_composite() if rng.random() < 0.6 else atom() for _ in range(rng.choice([2, 3]))]
+    if rng.random() < 0.8:
+        parts.append(atom())
+    spec = {'k': 'seq', 'subs': parts, 'meas': g.measurements(env, None), 'cons': []}
+    wrap = rng.randrange(4)
+    if wrap == 1:
+        spec = {'k': 'rep', 'body': spec, 'count': '2', 'meas': [['p', '0', '0.25']], 'cons': []}
+    elif wrap == 2:
+        spec = {'k': 'rev', 'body': spec}
+    elif wrap == 3:
+        spec = {'k': 'seq', 'subs': [atom(), spec], 'meas': [], 'cons': []}
+    pt = ptgen.build(spec)
+    return {'spec': spec, 'params': {k: v for k, v in values.items() if k in pt.parameter_names}, 'cm': {}, 'mm': None,
+            'single': []}
 
 
 def check_helpers(ctx, ck, cases, label='helper-with_repetition'):
@@ -76,7 +122,8 @@ def run(ctx: core.Ctx):
     ctx.rule = ('the C01 template generator with measurement declarations on every node kind that accepts them '
                 '(probability 0.75 per node, up to two per node), nested measurement renamings, top level renamings '
                 'including -> None, repetition counts 0/1/n, empty iteration ranges, dropped channels (so that nodes turn '
-                'out empty), reversal around repetitions and iterations; all nestings of depth <= 3 over two atoms; a '
+                'out empty), reversal around repetitions and iterations; a family of composites that turn out empty while '
+                'carrying windows, next to non-empty siblings; all nestings of depth <= 3 over two atoms; a '
                 'malformed stream; the helper RepetitionPT.with_repetition against its explicit nesting. Windows are '
                 'compared as multisets of exact rationals. Non-trivial = a program is produced from a tree with more '
                 'than one node')
@@ -93,7 +140,10 @@ def run(ctx: core.Ctx):
     ctx.exhaustive_spaces.append('all nestings of depth <= 3 over two atoms, a measurement declared on every node: %d trees'
                                  % len(descs))
     base = ctx.fork('random').getrandbits(48)
-    descs += [ck.desc(family='random', seed=base + i, depth=depth, gen=GEN) for i in range(ctx.n(1200, 30000))]
+    descs += [ck.desc(family='random', seed=base + i, depth=depth, gen=GEN) for i in range(ctx.n(900, 30000))]
+    base = ctx.fork('empty').getrandbits(48)
+    descs += [ck.desc(family='custom', make=empty_case, seed=base + i, label='empty-composites')
+              for i in range(ctx.n(150, 3000))]
     base = ctx.fork('malformed').getrandbits(48)
     descs += [ck.desc(family='malformed', seed=base + i) for i in range(ctx.n(150, 3000))]
     ck.run_batch(descs)
